@@ -146,6 +146,43 @@ static void check_stack(const grid & g) {
     }
 }
 
+// a LONG one-dimensional stack (beyond 2^22 cells: lattice coordinates no longer have spare mantissa bits in float) taken
+// through affine<I1<strided>> -> affine<I2<L2>> -> affine<I1<strided>>; the lattice values of all three fields are compared
+// at the ends of the axis and at random cells
+#if VF_N == 1
+template <typename I1, typename I2, typename L2>
+static void check_stack_long(std::size_t n, rng & r) {
+    {
+        using A = cb::array<cv::vector_d<float, 1>>;
+        using B1 = cb::strided<In, A>; using B2 = typename L2::template type<A>;
+        using F1 = cb::affine<typename I1::template type<B1>>; using F2 = cb::affine<typename I2::template type<B2>>;
+        const std::string tag = std::string("long/affine<") + I1::name + "<strided>>->affine<" + I2::name + "<" + L2::name + ">>->back";
+        json ctx = {{"ext", {n}}, {"stacks", tag}};
+        covfie::field<B1> rs(covfie::make_parameter_pack(typename B1::configuration_t{n}, typename A::configuration_t{n}));
+        { typename covfie::field<B1>::view_t v(rs); for (std::size_t k = 0; k < n; ++k) v.at(k)[0] = (float)(k % 9973 + 1); }
+        covfie::array::array<covfie::array::array<float, 2>, 1> m; m[0][0] = 1.f; m[0][1] = 1.f;
+        typename F1::configuration_t aff{covfie::algebra::matrix<1, 2, float>(m)};
+        covfie::field<F1> f1(covfie::make_parameter_pack(typename F1::configuration_t(aff), std::monostate{}, typename B1::owning_data_t(rs.backend())));
+        covfie::field<F2> f2(f1);
+        covfie::field<F1> f3(f2);
+        ++g_checks;
+        if (f2.backend().get_backend().get_backend().get_configuration()[0] != n || f3.backend().get_backend().get_backend().get_configuration()[0] != n) mismatch("convert-stack/configuration/" + tag, ctx);
+        typename covfie::field<F1>::view_t v1(f1), v3(f3); typename covfie::field<F2>::view_t v2(f2);
+        std::vector<std::size_t> cells;
+        for (std::size_t k = 0; k < 300 && k < n; ++k) { cells.push_back(k); cells.push_back(n - 1 - k); }
+        for (int q = 0; q < 4000; ++q) cells.push_back(r.below(n));
+        long bad = 0; std::size_t first = 0;
+        for (std::size_t c : cells) {
+            if ((I1::lin || I2::lin) && c + 1 >= n) continue;
+            const float x = (float)c - 1.f, want = (float)(c % 9973 + 1);
+            ++g_checks;
+            if (v1.at(x)[0] != want || v2.at(x)[0] != want || v3.at(x)[0] != want) { if (!bad++) first = c; }
+        }
+        if (bad) mismatch("convert-stack/values/" + tag, {{"ctx", ctx}, {"mismatching_cells", bad}, {"first_cell", first}});
+    }
+}
+#endif
+
 template <typename L1, typename S, std::size_t M>
 static void all_targets(const grid & g, std::size_t size1) {
     check_pair<L1, L_strided, S, M>(g, size1); check_pair<L1, L_morton, S, M>(g, size1);
@@ -186,6 +223,14 @@ int main(int argc, char ** argv) {
             if (c["layout"] == "strided") exts.push_back(e);
         }
         for (auto & e : exts) { ++g_cases; run_ext(make_grid(e), sizes[e]); }
+#if VF_N == 1
+        {
+            rng r(12345);
+            ++g_cases; check_stack_long<I_nn, I_lin, L_morton>((1u << 22) + 64, r);
+            ++g_cases; check_stack_long<I_lin, I_nn, L_mortonp>((1u << 22) + 61, r);
+            ++g_cases; check_stack_long<I_nn, I_nn, L_morton>((1u << 23) + 3, r);
+        }
+#endif
         summary();
     } else if (mode == "trace") {
         rng r(std::strtoull(argv[2], nullptr, 10));
@@ -195,6 +240,9 @@ int main(int argc, char ** argv) {
         const std::size_t mx = N == 1 ? 80000 : (N == 2 ? 90 : (N == 3 ? 24 : 20));   // (1-D: beyond 2^16 cells)
         for (long q = 0; q < n; ++q) {
             coord e(N); for (auto & x : e) x = 1 + r.below(mx);
+            // every third case is long and thin: one axis beyond 2^8 (2-D) / 2^6 (3-D), so that every bit-spreading stage of the
+            // curve layouts is used while the padded storage stays small
+            if (N >= 2 && N <= 3 && q % 3 == 2) { for (auto & x : e) x = 1 + r.below(3); e[r.below(N)] = N == 2 ? 257 + r.below(444) : 65 + r.below(64); }
             grid g = make_grid(e);
             trace_pair<L_strided, L_morton>(g, out, events); trace_pair<L_morton, L_strided>(g, out, events);
             trace_pair<L_strided, L_mortonp>(g, out, events); trace_pair<L_mortonp, L_morton>(g, out, events);
